@@ -14,9 +14,11 @@ import (
 	"github.com/dominant-strategies/go-quai/consensus"
 	"github.com/dominant-strategies/go-quai/consensus/blake3pow"
 	"github.com/dominant-strategies/go-quai/core"
+	"github.com/dominant-strategies/go-quai/core/rawdb"
 	"github.com/dominant-strategies/go-quai/core/types"
 	"github.com/dominant-strategies/go-quai/core/vm"
 	"github.com/dominant-strategies/go-quai/ethdb"
+	"github.com/dominant-strategies/go-quai/ethdb/memorydb"
 	"github.com/dominant-strategies/go-quai/log"
 	"github.com/dominant-strategies/go-quai/params"
 )
@@ -195,4 +197,17 @@ func (n *zoneNode) appendBlock(blk *types.WorkObject, inbound types.Transactions
 		return err
 	}
 	return n.hc.SetCurrentHeader(blk)
+}
+
+// memorydb reports no location, so everything the node decodes from it (blocks read back after a reorg, say) would
+// carry zone-less addresses; production nodes run on leveldb / pebble, which know their zone.
+type locKV struct {
+	*memorydb.Database
+	loc common.Location
+}
+
+func (d locKV) Location() common.Location { return d.loc }
+
+func newMemDB() ethdb.Database {
+	return rawdb.NewDatabase(locKV{memorydb.New(log.Global), common.Location{0, 0}})
 }
